@@ -20,6 +20,7 @@ package metrics
 import (
 	"bytes"
 	"fmt"
+	"math"
 	"sort"
 
 	jp "github.com/buger/jsonparser"
@@ -80,6 +81,23 @@ func (th *TagsHolder) checkTagKeys() error {
 	for i := 0; i < th.idx; i++ {
 		if !utils.IsSimpleFileName(th.entries[i].tagKey) {
 			return fmt.Errorf("invalid tag key: %q", th.entries[i].tagKey)
+		}
+	}
+	return nil
+}
+
+// The tags tree file stores the length of a string tag value in 16 bits, so a
+// longer value cannot be written.
+func (th *TagsHolder) checkTagValues() error {
+	for i := 0; i < th.idx; i++ {
+		entry := &th.entries[i]
+		if entry.tagValueType != jp.String || len(entry.tagValue) <= math.MaxUint16 {
+			continue
+		}
+		// the raw value may be longer than the value because of escape sequences
+		value, err := jp.ParseString(entry.tagValue)
+		if err != nil || len(value) > math.MaxUint16 {
+			return fmt.Errorf("value of tag %q is longer than %v bytes", entry.tagKey, math.MaxUint16)
 		}
 	}
 	return nil
